@@ -113,17 +113,21 @@ def _check_obs(before: bytes, o, dry_run: bool) -> bool:
         return False
     if o.final == before:
         return False  # every changeset names a file that did change
-    return diff_matches(before.decode(), o.final.decode(), diff)
+    # compare at the byte level: latin-1 maps bytes to code points one to one, so text outside the hunks
+    # must be byte-identical whatever encoding the file declares
+    try:
+        return diff_matches(before.decode("utf-8"), o.final.decode("utf-8"), diff)
+    except UnicodeDecodeError:
+        return diff_matches(before.decode("latin-1"), o.final.decode("latin-1"), diff)
 
 
 def d3_libcst(kind: int, dry_run: bool, r1: bool, c1: bool, a1: bool, r2: bool, c2: bool, a2: bool) -> bool:
     """LibcstTransformerPipeline.apply under every combination of outcome flags.
-    pre: 0 <= kind < 4
+    pre: 0 <= kind < 5
     post: _
     """
-    fp0 = None
     fp, fc, o = skel.run_libcst(kind, dry_run, (r1, c1, a1), (r2, c2, a2), 1)
-    before = {0: skel.SRC_TEXT.encode(), 1: b"a = '\xff'\n", 2: b"def (:\n", 3: b""}[kind]
+    before = skel.BEFORE[kind]
     return fin(o.exc is None and _check_obs(before, o, dry_run))
 
 
